@@ -158,6 +158,9 @@ def diff(a, b, path="", out=None, limit=4):
             for i, (x, y) in enumerate(zip(a, b)):
                 if x != y:
                     nm = names[i] if i < len(names) else (x[0] if isinstance(x, tuple) and x else f"#{i}")
+                    if nm == "id":
+                        out.append(f"{path}: replaced by another tensor object")
+                        continue
                     if nm == "attrs":
                         diff(x, y, f"{path}.attrs", out, limit)
                     else:
@@ -176,6 +179,9 @@ def diff(a, b, path="", out=None, limit=4):
             return out
         for i, (x, y) in enumerate(zip(a, b)):
             if x != y:
+                if isinstance(x, tuple) and len(x) == 2 and x[0] == "id":
+                    out.append(f"{path}: replaced by another object")
+                    continue
                 key = x[0] if isinstance(x, tuple) and x and isinstance(x[0], str) and len(x) == 2 else f"#{i}"
                 if isinstance(x, tuple) and len(x) == 2 and isinstance(x[0], str) and isinstance(y, tuple) and len(y) == 2 and x[0] == y[0]:
                     diff(x[1], y[1], f"{path}.{key}", out, limit)
